@@ -16,6 +16,10 @@ ASSUMPTIONS = [
     "balls are never created or destroyed; switches are clean (no bounce below the count delays)",
     "entrance-counted devices only see successful ejects (they cannot observe a failed one)",
     "two balls pass the same entrance switch at least 400 ms apart",
+    "a ball that entered a device rests there at least 0.6 s before the player plunges it or it bounces out (counts settle "
+    "in 0.5 s: a ball passing through faster is invisible to MPF)",
+    "a loose ball knocks on the entrance switch of a full entrance-counted device only while that device is at rest (not in "
+    "the 30 ms between its coil pulse and its ball leaving)",
     "late arrivals stay below ball_missing_timeout",
     "balls bounce out of a device only while the whole machine is at rest",
     "'at rest' = no ball in transit, no pending world event and 75 s of virtual quiet without a coil pulse",
